@@ -171,6 +171,109 @@ def impl_reassign(case):
         css_parser.log.raiseExceptions = old
 
 
+def _page_state(r):
+    items = [[i.type, i.value if isinstance(i.value, str) else i.value.cssText] for i in r._selectorText]
+    return [list(r.specificity), items, r.selectorText]
+
+
+def impl_page_history(case):
+    """assignments to ONE CSSPageRule through selectorText / cssText; case = (steps, raising), step = (attr, text).
+    After every step: [specificity, selector seq items, selectorText, re-parsed specificity of selectorText]."""
+    _setup()
+    import xml.dom
+    import css_parser
+    from css_parser.css import CSSPageRule
+    steps, raising = case
+    old = css_parser.log.raiseExceptions
+    try:
+        css_parser.log.raiseExceptions = False
+        r = CSSPageRule()
+        out = []
+        for attr, text in steps:
+            css_parser.log.raiseExceptions = bool(raising)
+            try:
+                setattr(r, attr, text)
+            except xml.dom.DOMException:
+                if not raising:
+                    raise
+            css_parser.log.raiseExceptions = False
+            st = _page_state(r)
+            try:
+                st.append(list(CSSPageRule(selectorText=st[2]).specificity))
+            except Exception as e:  # noqa
+                st.append("reparse raised " + type(e).__name__)
+            out.append(st)
+        return ["OK", out]
+    except Exception as e:  # noqa
+        return ["CRASH", type(e).__name__, str(e)[:200]]
+    finally:
+        css_parser.log.raiseExceptions = old
+
+
+def impl_block_class(block):
+    """observable class of a block (the part of _setCssText that is not modelled), measured on a FRESH rule with a
+    fixed selector and judged by selectorText only: O committed in both modes, L committed only when errors are
+    logged, R never committed"""
+    _setup()
+    import xml.dom
+    import css_parser
+    from css_parser.css import CSSPageRule
+    old = css_parser.log.raiseExceptions
+    res = []
+    try:
+        for raising in (False, True):
+            css_parser.log.raiseExceptions = False
+            r = CSSPageRule()
+            css_parser.log.raiseExceptions = raising
+            try:
+                r.cssText = "@page probe:first" + block
+            except xml.dom.DOMException:
+                pass
+            css_parser.log.raiseExceptions = False
+            res.append(r.selectorText == "probe:first")
+        return "O" if res == [True, True] else ("L" if res == [True, False] else ("R" if res == [False, False] else "?"))
+    except Exception as e:  # noqa
+        return "?"
+    finally:
+        css_parser.log.raiseExceptions = old
+
+
+def impl_rule_reassign(case):
+    """style rule: case = (ns, [selector texts], attr, bad_text, raising): a parsed rule gets a rejected rule-level
+    assignment (cssText or selectorText); returns per Selector (selectorText, specificity) before and after"""
+    _setup()
+    import xml.dom
+    import css_parser
+    ns, sels, attr, bad, raising = case
+    old = css_parser.log.raiseExceptions
+    try:
+        css_parser.log.raiseExceptions = False
+        head = "".join("@namespace %s '%s';" % (p, u) for p, u in ns)
+        sheet = css_parser.parseString(head + ",".join(sels) + "{x:1}")
+        rules = [r for r in sheet.cssRules if r.type == r.STYLE_RULE]
+        if len(rules) != 1 or len(rules[0].selectorList) != len(sels):
+            return ["SKIP", "sheet did not give one rule with the selectors"]
+        rule = rules[0]
+        before = [[s.selectorText, list(s.specificity)] for s in rule.selectorList]
+        btext = rule.selectorText
+        css_parser.log.raiseExceptions = bool(raising)
+        try:
+            setattr(rule, attr, bad)
+        except xml.dom.DOMException:
+            pass
+        css_parser.log.raiseExceptions = False
+        after = [[s.selectorText, list(s.specificity)] for s in rule.selectorList]
+        return ["OK", before, after, btext, rule.selectorText]
+    except Exception as e:  # noqa
+        return ["CRASH", type(e).__name__, str(e)[:200]]
+    finally:
+        css_parser.log.raiseExceptions = old
+
+
+BAD_RULE_CSS = ["#p #q #r > {x:1}", "#p.q r {x:1", "#p, , #q {x:1}", "#p.q {x:1} #z", "#p:not( {x:1}", "#a#b[ {y:2}",
+                "@media print { #p{x:1} }", "#p.q r", "{x:1}", "#p #q {x:1}}"]
+BAD_RULE_SEL = ["#p #q #r >", "#p, , #q", "#p:not(", "#a#b[", ",", "#p.q {", "#p #q,"]
+
 BAD_TEXTS = ["#p #q #r >", "div.a.b.c[", "h1, h2", "x:not(", "a >", ".a..b", ":x(", "#a]", "a b +", "[a=", "p|", "::",
              "}", "#a#b#c.d.e f g >", ".k.l.m:not(#z", "a[b=\"[\"", "#i.j k,"]
 
@@ -191,6 +294,25 @@ def oracle_reassign(good, expected, r):
             after[1], after[0], before[0])
     if rr != after[0]:
         return "selector %r reports %s but its serialisation re-parses to %s" % (after[1], after[0], rr)
+    return None
+
+
+def oracle_rule_reassign(exp, r):
+    if r[0] == "SKIP":
+        return None
+    if r[0] == "CRASH":
+        return "rule-level assignment raised %s: %s" % (r[1], r[2])
+    before, after = r[1], r[2]
+    if r[3] != r[4]:
+        return None      # the assignment was accepted after all
+    for (bt, bs), (at, as_), e in zip(before, after, exp):
+        if at != bt:
+            return "a rejected rule-level assignment changed a selector from %r to %r" % (bt, at)
+        if as_ != [0] + list(e):
+            return "after a rejected rule-level assignment the selector %r reports %s, CSS definition gives %s" % (
+                at, as_, [0] + list(e))
+    if len(after) != len(before):
+        return "a rejected rule-level assignment changed the number of selectors"
     return None
 
 
@@ -513,17 +635,66 @@ def gen_texts(rng, n):
 
 
 # ---------------------------------------------------------------------------------------------- @page selectors
-def gen_pages(rng, n):
+PAGE_NAMES = ["toc", "Auto2", "x-y", "_p", "first", "left", "a"]
+PAGE_PSEUDO = ["first", "left", "right", "FIRST", "Left", "f\\irst"]
+PAGE_BLOCKS = ["{}", "{ margin: 1cm }", "{margin:0;size:a4}", '{ @top-left { content: "x" } margin: 1cm }', "{ foo: bar }",
+               "{;}", "{ margin: 1cm } ", "{ margin: }", "{ color }", "{ @media print {} }", "{ @top-left { content: } }",
+               "{ margin: 1cm; @page {} }", "{ margin: 1cm", '{ @top-left { content: "x" }', "{ margin:1cm } x", "",
+               "{ margin: 1cm }}", "{ margin: 1cm;", '{ @top-left { content: "x" ', "{ marg/**/in: 1cm }", "{ margin: 1cm }x{}"]
+PAGE_BAD_SEL = [":", "auto", "a :first", "a b", ":first:left", ":first x", "a{", ": first", ":1", "a:", "::first", ",",
+                "a,b", ".a", "#a", "a.b", '"s"', ":first/**/:left", "a /**/:left", "1a", "a:first b", ":left :first"]
+
+
+def gen_page_selector(rng):
+    """a derivation of the page grammar of Selector.v: text and (named, first, left-or-right) by construction"""
+    ws = lambda: rng.choice(["", "", " ", "/**/", " /*c*/ ", "\n"])  # noqa
+    name = rng.choice(["", ""] + PAGE_NAMES)
+    pseudo = rng.choice(["", ""] + PAGE_PSEUDO)
+    mid = rng.choice(["", "", "", "/**/", "/*a*//*b*/"]) if name else ""
+    text = ws() + name + mid + ((":" + pseudo) if pseudo else "") + ws()
+    low = pseudo.replace("\\", "").lower()
+    return text, [1 if name else 0, 1 if low == "first" else 0, 1 if low in ("left", "right") else 0]
+
+
+def gen_page_histories(rng, n):
     out = []
     for _ in range(n):
-        name = rng.choice(["", "", "toc", "Auto2", "x-y", "_p"])
-        pseudo = rng.choice(["", "", "first", "left", "right", "FIRST" if rng.random() < 0.1 else "first"])
-        lead = rng.choice(["", " ", "/**/", " /*c*/ "])
-        trail = rng.choice(["", " ", "/**/"])
-        text = lead + name + ((":" + pseudo) if pseudo else "") + trail
-        exp = [1 if name else 0, 1 if pseudo == "first" else 0, 1 if pseudo in ("left", "right") else 0]
-        out.append((text, exp, pseudo))
+        steps, exp = [], []
+        cur = [0, 0, 0]
+        for _ in range(rng.randint(2, 5)):
+            x = rng.random()
+            if x < 0.3:      # valid selector through selectorText
+                text, tr = gen_page_selector(rng)
+                steps.append(("selectorText", text, None))
+            elif x < 0.45:   # invalid selector through selectorText
+                steps.append(("selectorText", rng.choice(PAGE_BAD_SEL), None))
+            elif x < 0.9:    # cssText: valid or invalid selector + any block
+                if rng.random() < 0.8:
+                    sel, tr = gen_page_selector(rng)
+                else:
+                    sel = rng.choice(PAGE_BAD_SEL)
+                    if "{" in sel:
+                        sel = "a b"
+                block = rng.choice(PAGE_BLOCKS)
+                sep = "" if sel.startswith((":", " ", "/", "\n")) or not sel else " "
+                steps.append(("cssText", "@page" + sep + sel + block, block))
+            else:            # not an @page rule at all
+                steps.append(("cssText", rng.choice(["a { x:1 }", "@media print {}", "toc:first {}", ""]), None))
+        out.append((steps, rng.random() < 0.5))
     return out
+
+
+def page_definition(selector_text):
+    """(named, first, left/right) read off a serialised page selector; None when it is not of the grammar"""
+    import re as _re
+    x = _re.sub(r"/\*.*?\*/", "", selector_text, flags=_re.S).strip()
+    m = _re.match(r"^(-?[A-Za-z_][-\w]*)?(?::([A-Za-z\\]+))?$", x)
+    if not m:
+        return None
+    ps = (m.group(2) or "").replace("\\", "").lower()
+    if ps and ps not in ("first", "left", "right"):
+        return None
+    return [1 if m.group(1) else 0, 1 if ps == "first" else 0, 1 if ps in ("left", "right") else 0]
 
 
 # ---------------------------------------------------------------------------------------------- the check
@@ -688,18 +859,94 @@ def run(ctx):
                 mism.append(("normalize", v, "Selector.normalize %r, Tokenizer.normalize %r, helper.normalize %r"
                              % (uncps(a), uncps(b), pynorm(v))))
 
-    # ---- @page selectors: oracle on the implementation only
-    pages = gen_pages(rng, 400)
-    for (text, exp, pseudo), r in zip(pages, [impl_page(t) for t, _, _ in pages]):
+    # ---- (e) @page rules: histories on ONE CSSPageRule through selectorText and cssText, both error modes
+    phist = gen_page_histories(rng, 12000 if thorough else 2500)
+    pres_ = ctx.pool_map(impl_page_history, [([(a, x) for a, x, _ in steps], raising) for steps, raising in phist],
+                         procs=PROCS, chunksize=128)
+    bclass = {b: impl_block_class(b) for b in PAGE_BLOCKS}
+    stats["page_block_classes"] = "".join(sorted(bclass.values()))
+    stats["page_histories"] = len(phist)
+    plines = []
+    for steps, raising in phist:
+        ws_ = []
+        for attr, text, block in steps:
+            try:
+                toks = impl_tokens(text) if text else []
+            except Exception:  # noqa
+                toks = []
+            enc = lambda ts: ";".join("%s:%s" % (cps(a), cps(b)) for a, b in ts)  # noqa
+            if attr == "selectorText":
+                ws_.append("S/" + enc(toks))
+            else:
+                ispage = bool(toks) and toks[0][0] == "PAGE_SYM"
+                sel = []
+                for ty, v in toks[1:]:
+                    if ty == "CHAR" and v == "{":
+                        break
+                    sel.append((ty, v))
+                ws_.append("C/%d/%s/%s" % (ispage, bclass.get(block, "R") if block is not None else "R", enc(sel)))
+        plines.append("P|%d|%s" % (raising, "#".join(ws_)))
+    pout = ctx.run_binary(binary, plines, shards=PROCS) if binary else [None] * len(plines)
+    pfound = []
+    for (steps, raising), r, o in zip(phist, pres_, pout):
         n_eval += 1
+        wit = {"kind": "pagehistory", "steps": [[a, x] for a, x, _ in steps], "raising": raising}
         if r[0] != "OK":
-            ctx.violation("CSSPageRule raised %s" % r[1], {"kind": "page", "text": text, "expected": exp},
-                          sig_text=json.dumps(text))
-        elif r[1] != exp or r[3] != r[1]:
-            if pseudo == "FIRST" or text.lstrip("/* c").lower().startswith("auto"):
-                continue    # case-insensitive :FIRST / pagename spelled like `auto`: outside the statement
-            ctx.violation("@page specificity %s (re-parse %s), definition gives %s" % (r[1], r[3], exp),
-                          {"kind": "page", "text": text, "expected": exp}, sig_text=json.dumps(text))
+            pfound.append((len(str(steps)), "CSSPageRule raised %s: %s" % (r[1], r[2]), wit))
+            continue
+        # correspondence with page_assign
+        if o is not None:
+            for k, (st, ms) in enumerate(zip(r[1], o.split("@"))):
+                if ms == "UNMOD" or not ms:
+                    break
+                spec_s, _, items_s = ms.partition("~")
+                mspec = [int(x) for x in spec_s.split(" ")]
+                mitems = [[uncps(i.split(":")[0]), uncps(i.split(":")[1])] for i in items_s.split(";") if i]
+                if mspec != st[0] or mitems != st[1]:
+                    mism.append(("page", wit, "step %d: model %s %s, implementation %s %s" % (k, mspec, mitems, st[0], st[1])))
+                    break
+        # oracle: after every step the rule reports the definition applied to its CURRENT selectorText
+        for k, st in enumerate(r[1]):
+            d = page_definition(st[2])
+            if d is None:
+                continue
+            if st[0] != d:
+                pfound.append((len(str(steps[:k + 1])), "after step %d the @page rule with selector %r reports %s, definition "
+                               "gives %s" % (k, st[2], st[0], d), dict(wit, steps=wit["steps"][:k + 1])))
+                break
+            if st[3] != st[0]:
+                pfound.append((len(str(steps[:k + 1])), "@page selector %r reports %s but re-parses to %s" % (st[2], st[0], st[3]),
+                               dict(wit, steps=wit["steps"][:k + 1])))
+                break
+    for _, v, wit in sorted(pfound, key=lambda x: x[0])[:50]:
+        ctx.violation(v, wit, sig_text=json.dumps(wit["steps"]))
+
+    # ---- (f) style rules: a rejected rule-level assignment (cssText / selectorText) leaves every Selector of the list
+    #          with its own text and the by-construction specificity
+    if binary:
+        gsel = [(ns, text, tr) for (ns, w, tr), (_, text) in zip(asts, texts) if text and "," not in text]
+        rcases, rexp = [], []
+        for k in range(0, min(len(gsel) - 1, 8000 if thorough else 1600), 2):
+            (ns, t1, tr1), (ns2, t2, tr2) = gsel[k], gsel[k + 1]
+            ns = ns if ns == ns2 else sorted(set(ns) | set(ns2))
+            if len({p_ for p_, _ in ns}) != len(ns):
+                continue
+            sels = [t1, t2] if rng.random() < 0.6 else [t1]
+            attr = rng.choice(["cssText", "selectorText"])
+            rcases.append((ns, sels, attr, rng.choice(BAD_RULE_CSS if attr == "cssText" else BAD_RULE_SEL), rng.random() < 0.5))
+            rexp.append([tr1, tr2][:len(sels)])
+        rres = ctx.pool_map(impl_rule_reassign, rcases, procs=PROCS, chunksize=64)
+        stats["rule_reassignments"] = sum(1 for r in rres if r[0] == "OK")
+        sfound = []
+        for case, exp, r in zip(rcases, rexp, rres):
+            n_eval += 1
+            wit = {"kind": "rulereassign", "ns": case[0], "selectors": case[1], "attr": case[2], "then": case[3],
+                   "raising": case[4], "expected": [[0] + list(e) for e in exp]}
+            v = oracle_rule_reassign(exp, r)
+            if v:
+                sfound.append((len(str(case[1])), v, wit))
+        for _, v, wit in sorted(sfound, key=lambda x: x[0])[:50]:
+            ctx.violation(v, wit, sig_text=json.dumps([wit["selectors"], wit["then"]]))
 
     if mism and os.environ.get("C16_DUMP"):
         open(os.environ["C16_DUMP"], "w").write(json.dumps(mism, indent=0, default=str))
@@ -735,6 +982,22 @@ def run(ctx):
                         best = {"kind": "selector", "text": text, "ns": ns, "expected": [0] + list(tr), "fails": v}
             if best:
                 return best
+            ph = gen_page_histories(rng, 1500)
+            pr = ctx.pool_map(impl_page_history, [([(a, x) for a, x, _ in s], r_) for s, r_ in ph], procs=PROCS, chunksize=128)
+            for (s, r_), res_ in zip(ph, pr):
+                if res_[0] != "OK":
+                    continue
+                for k, st in enumerate(res_[1]):
+                    d = page_definition(st[2])
+                    if d is not None and (st[0] != d or st[3] != st[0]):
+                        cand = {"kind": "pagehistory", "steps": [[a, x] for a, x, _ in s][:k + 1], "raising": r_,
+                                "fails": "@page rule with selector %r reports %s (re-parse %s), definition gives %s"
+                                         % (st[2], st[0], st[3], d)}
+                        if best is None or len(str(cand["steps"])) < len(str(best.get("steps", best.get("text")))):
+                            best = cand
+                        break
+            if best:
+                return best
             rc = [(ns, text, rng.choice(BAD_TEXTS), rng.random() < 0.5, rng.random() < 0.3)
                   for (ns, w, tr), (_, text) in zip(batch, texts) if text]
             rr_ = ctx.pool_map(impl_reassign, rc, procs=PROCS, chunksize=128)
@@ -756,7 +1019,9 @@ def run(ctx):
                 "rendered by the extracted Coq renderer, re-tokenized by the real tokenizer; token stream: random and "
                 "mutated token lists incl. synthetic types, tokenized random texts, and ALL token sequences of length "
                 "<= %d over a %d-token alphabet; re-assignment histories (2-4 assignments to one Selector, logging and "
-                "raising mode) and valid-then-rejected assignments (stand-alone and rule.selectorList[0]); quoted "
+                "raising mode) and valid-then-rejected assignments (stand-alone and rule.selectorList[0]); histories of "
+                "selectorText/cssText assignments on one CSSPageRule (valid / invalid selector x block classes, both modes) "
+                "and rejected rule-level assignments on parsed style rules; quoted "
                 "attribute values / pseudo arguments / soup values include every literal the machine compares against; "
                 "non-trivial = distinct grammar texts accepted with the "
                 "by-construction specificity and stable on re-parse" % (4 if thorough else 3, len(SMALL)),
@@ -776,6 +1041,21 @@ def replay_one(w):
             return "@page specificity %s (re-parse %s), definition gives %s" % (r[1], r[3], w["expected"])
         return None
     ns = [tuple(x) for x in w.get("ns", [])]
+    if w.get("kind") == "pagehistory":
+        r = impl_page_history(([tuple(x) for x in w["steps"]], w["raising"]))
+        if r[0] != "OK":
+            return "CSSPageRule raised %s" % r[1]
+        for k, st in enumerate(r[1]):
+            d = page_definition(st[2])
+            if d is not None and st[0] != d:
+                return "after step %d the @page rule with selector %r reports %s, definition gives %s" % (k, st[2], st[0], d)
+            if d is not None and st[3] != st[0]:
+                return "@page selector %r reports %s but re-parses to %s" % (st[2], st[0], st[3])
+        return None
+    if w.get("kind") == "rulereassign":
+        ns = [tuple(x) for x in w["ns"]]
+        return oracle_rule_reassign([e[1:] for e in w["expected"]],
+                                    impl_rule_reassign((ns, w["selectors"], w["attr"], w["then"], w["raising"])))
     if w.get("kind") == "reassign":
         return oracle_reassign(w["text"], w["expected"][1:],
                                impl_reassign((ns, w["text"], w["then"], w["raising"], w["via_rule"])))
@@ -803,8 +1083,10 @@ TRUSTED = [
     "(coq/theories/Selector.v); it takes the tokenizer's token list as input (the tokenizer model is C08's)",
     "str.lower() per-character table generated from the interpreter (final-sigma rule not modelled); "
     "Selector.normalize = helper.normalize checked on the harness's value pool only",
-    "the serializer (do_css_Selector) is not modelled: re-parse stability is checked on the implementation only; "
-    "CSSPageRule's selector machine is not modelled: checked by the by-construction oracle only",
+    "the serializers (do_css_Selector, do_CSSPageRuleSelector) are not modelled: re-parse stability is checked on the "
+    "implementation only; of CSSPageRule._setCssText only the commit discipline is modelled: brace matching, "
+    "declarations and margin rules enter as the observed block class (O/L/R, measured on a fresh rule by selectorText)",
+    "CSSPageRule.__parseSelectorText is a hand transcription (no regenerated constants), tied by correspondence",
 ]
 ASSUME = [
     "Print Assumptions for every theorem of props/C16.v: see coverage.print_assumptions",
